@@ -55,10 +55,37 @@ def noise(rng, n, mode):
     return bytes(out[:n]) if rng.random() < 0.5 else bytes(out)
 
 
+def stuck_line(rng, n):
+    """a plausible header (own / foreign recipient, known sender, length 10..1000) whose 'frame' does not end in the end
+    delimiter, followed by n bytes of an idle / stuck line: a run over an alphabet of one to three byte values.  Whatever
+    byte value a reader might wait for is absent from most of these runs."""
+    ln = rng.choice([10, 11, 20, 100, 999, 1000, rng.randint(10, 1000)])
+    alpha = [rng.choice([0x00, 0xFF, 0x55, 0x16, 0x0a, rng.randrange(256)]) for _ in range(rng.choice([1, 1, 2, 3]))]
+    alpha = [a if a != 0x68 else 0x69 for a in alpha]
+    head = bytes([0x68, ln & 0xFF, ln >> 8, rng.choice([86, 0, 86, 69, 1]), rng.choice(fg.DEVICES), 48, 5])
+    pre = bytes(rng.choice(alpha) for _ in range(rng.choice([0, 0, 3, 40])))
+    if n <= 4000:
+        return pre + head + bytes(rng.choice(alpha) for _ in range(n))
+    # long stretches repeat a short pattern over the alphabet, so that a failing input can be written down: [[hex, times], ...]
+    pat = bytes(rng.choice(alpha) for _ in range(rng.choice([1, 1, 2, 5, 8])))
+    parts = [[(pre + head).hex(), 1], [pat.hex(), n // len(pat)]]
+    nz = unparts(parts)
+    _PARTS[nz] = parts
+    return nz
+
+
+_PARTS = {}
+
+
+def unparts(parts):
+    return b"".join(bytes.fromhex(h) * k for h, k in parts)
+
+
 def valid_frame(rng, inner68):
     for _ in range(10000):
         kind = rng.choice(fg.FRAME_TYPES)
-        pl = bytes(rng.randrange(256) for _ in range(rng.choice([0, 1, 2, 3, 5, 8, 20])))
+        # every frame length 10..70 (every residue modulo any read size a reader might use), a few longer ones
+        pl = bytes(rng.randrange(256) for _ in range(rng.choice([rng.randint(0, 60), rng.randint(0, 60), rng.randint(0, 60), 0, 1, 200])))
         fr = fg.mk(kind, pl, rng.choice([86, 0]), rng.choice(fg.DEVICES))
         if (0x68 in fr[1:]) == inner68:
             return fr
@@ -76,7 +103,17 @@ def bcc68_valid(rng):
     raise AssertionError
 
 
-def judge_calls(res, s, obs, inp, blocked):
+def trailing(obs, fr):
+    """number of consecutive deliveries of the frame `fr` at the end of an observation (before the end of the stream)"""
+    want = ("D", fr[7], fr[3], fr[4], fr[5], fr[6], hexs(fr[8:-2]))
+    seq = [o for o in obs if o[0] != "L"]
+    m = 0
+    while m < len(seq) and tuple(seq[-1 - m][:7]) == want:
+        m += 1
+    return m
+
+
+def judge_calls(res, s, obs, inp, blocked, from_delim=None):
     """clauses a, b, c on one implementation observation"""
     pos = 0
     for o in obs:
@@ -97,6 +134,9 @@ def judge_calls(res, s, obs, inp, blocked):
     if blocked is not None and blocked >= 1000:
         res.fail("spec", inp, "< 1000 bytes buffered while waiting", blocked,
                  "read() kept waiting although a maximum-size frame's worth of bytes had arrived")
+    if from_delim is not None and from_delim >= 1000:
+        res.fail("spec", inp, "a call completes once 1000 bytes from its start delimiter have arrived", dict(arrived_from_delimiter=from_delim),
+                 "read() waits for more than the maximum frame size: 1000 bytes counted from the call's start delimiter had arrived and the call still waited")
 
 
 async def _producer(stream, cuts):
@@ -144,6 +184,11 @@ def run(ctx):
     for _ in range(n_noise):
         mode = rng.choice(["uniform", "dense", "header"])
         cases.append(("noise:" + mode, noise(rng, rng.choice([0, 1, 5, 20, 60, 200, rng.randint(0, 400)]) , mode), None, 0))
+    # idle / stuck line after a plausible header: longer than the maximum frame, a few longer than the stream reader's buffer limit
+    for i in range(40 if quick else 1500):
+        cases.append(("noise:stuck", stuck_line(rng, rng.choice([5, 300, 1001, 1500, rng.randint(1000, 3000)])), None, 0))
+    for i in range(3 if quick else 40):
+        cases.append(("noise:stuck-long", stuck_line(rng, rng.choice([65536, 70000, 131073]) + rng.randint(0, 2000)), None, 0))
     # checksum-valid frames of every one of the 256 type bytes (known or not), alone and followed by a known frame
     for kind in range(256):
         fr = fg.mk(kind, bytes(rng.randrange(256) for _ in range(rng.choice([0, 1, 4]))), rng.choice([86, 0]), rng.choice([69, 81]))
@@ -151,7 +196,9 @@ def run(ctx):
     n_run = 250 if quick else 6000
     for i in range(n_run):
         mode = rng.choice(["uniform", "dense", "header"])
-        nz = noise(rng, rng.choice([0, 3, 30, 150, rng.randint(0, 600), 1200 if not quick else 300]), mode)
+        nz = noise(rng, rng.choice([0, 3, 30, 150, rng.randint(0, 40), rng.randint(0, 600), 1200 if not quick else 300]), mode)
+        if rng.random() < 0.1:
+            nz = stuck_line(rng, rng.choice([0, 7, 1001, 1500]))
         inner = rng.random() < 0.25
         fr = bcc68_valid(rng) if (inner and rng.random() < 0.5) else valid_frame(rng, inner)
         copies = (1000 + 3 * len(fr)) // len(fr) + rng.randint(1, 4)
@@ -176,29 +223,32 @@ def run(ctx):
         for cuts, lazy in runs:
             stats = {} if lazy else None
             obs = reader.canon_impl(reader.read_all(s, cuts, lazy, stats=stats))
-            inp = dict(noise=nz.hex(), frame=fr.hex() if fr else None, copies=copies, cuts=list(cuts), lazy=lazy, label=label)
-            judge_calls(res, s, obs, inp, stats.get("max_blocked_buffer") if stats else None)
+            inp = dict(noise=nz.hex() if nz not in _PARTS else "%d bytes, see noise_parts: [[hex, times], ...]" % len(nz),
+                       frame=fr.hex() if fr else None, copies=copies, cuts=list(cuts), lazy=lazy, label=label)
+            if nz in _PARTS:
+                inp["noise_parts"] = _PARTS[nz]
+            judge_calls(res, s, obs, inp, stats.get("max_blocked_buffer") if stats else None,
+                        stats.get("max_blocked_from_delimiter") if stats else None)
             if obs != model:
-                res.fail("corr", inp, model, obs, "reader model and FrameReader.read() differ")
+                res.fail("corr", inp, model[:40], obs[:40], "reader model and FrameReader.read() differ")
             for o in obs:
                 res.count("outcome:" + o[0])
             if impl0 is None:
                 impl0 = obs
-        if fr:
-            # clause e: trailing consecutive deliveries of the frame
-            want = ("D", fr[7], fr[3], fr[4], fr[5], fr[6], hexs(fr[8:-2]), len(fr))
-            seq = [o for o in impl0 if o[0] != "L"]
-            m = 0
-            while m < len(seq) and seq[-1 - m][:7] == want[:7]:
-                m += 1
-            lost_max = (999 + len(fr)) // len(fr)
-            inp = dict(noise=nz.hex(), frame=fr.hex(), copies=copies, label=label)
-            if m < copies - lost_max:
-                inner = 0x68 in fr[1:]
-                res.fail("spec", inp, f">= {copies - lost_max} trailing deliveries", dict(trailing_deliveries=m),
-                         "run of identical valid frames not picked up within maximum frame length plus one frame",
-                         finding="F2" if inner else None)
-            res.count("resync:" + ("ok" if m >= copies - lost_max else "lost"))
+            if fr:
+                # clause e, on every way the stream was handed over (all buffered at once / lazily in chunks):
+                # trailing consecutive deliveries of the frame
+                m, lost_max = trailing(obs, fr), (999 + len(fr)) // len(fr)
+                if m < copies - lost_max:
+                    # F2 is a statement about particular INPUTS: the frame has an inner start delimiter and the run is entered so
+                    # that the reader model itself (which describes that deviation, C14.resync_counterexample) loses the run.
+                    # Anything the model does not lose is not F2.
+                    f2 = 0x68 in fr[1:] and trailing(model, fr) < copies - lost_max
+                    res.fail("spec", inp, f">= {copies - lost_max} trailing deliveries", dict(trailing_deliveries=m),
+                             "run of identical valid frames not picked up within maximum frame length plus one frame",
+                             finding="F2" if f2 else None)
+                res.count("resync:" + ("ok" if m >= copies - lost_max else "lost"))
+                res.count("run-frame-length-mod-7:%d" % (len(fr) % 7))
         if ci < prod_budget or label.startswith("corpus"):
             cuts = tuple(sorted(rng.sample(range(1, len(s)), min(3, len(s) - 1)))) if len(s) > 2 else ()
             alive, connected, got = vloop.run(_producer(s, cuts))
@@ -225,6 +275,8 @@ def run(ctx):
     producer.evaluate_pipeline(res, producer.pipeline_cases(rng, 60 if quick else 1500,
                                                           noise_fn=lambda r: noise(r, r.choice([0, 5, 20, 60]), r.choice(["uniform", "dense", "header"]))),
                                "C14")
+    # concrete failing inputs first, open findings after new ones, the shortest input first
+    res.failures.sort(key=lambda f: (f["kind"] != "spec", bool(f.get("finding")), len(str(f.get("input")))))
     return res
 
 
@@ -243,7 +295,7 @@ def replay(ctx):
         producer.replay_case(res, i, "C14")
         res.case(i["stream"])
         return res
-    nz = bytes.fromhex(i["noise"])
+    nz = unparts(i["noise_parts"]) if "noise_parts" in i else bytes.fromhex(i["noise"])
     fr = bytes.fromhex(i["frame"]) if i.get("frame") else None
     s = nz + (fr * i.get("copies", 0) if fr else b"")
     res = Result("C14")
@@ -253,7 +305,13 @@ def replay(ctx):
     model = reader.canon_model(reader.parse_model(driver_batch(["read " + hexs(s)])[0]))
     res.case(s)
     res.sample(dict(input=i, observed=[list(o) for o in obs[:20]]))
-    judge_calls(res, s, obs, i, stats.get("max_blocked_buffer"))
+    judge_calls(res, s, obs, i, stats.get("max_blocked_buffer"), stats.get("max_blocked_from_delimiter"))
+    if fr:
+        m, lost_max = trailing(obs, fr), (999 + len(fr)) // len(fr)
+        if m < i.get("copies", 0) - lost_max:
+            res.fail("spec", i, f">= {i.get('copies', 0) - lost_max} trailing deliveries", dict(trailing_deliveries=m),
+                     "run of identical valid frames not picked up within maximum frame length plus one frame",
+                     finding="F2" if (0x68 in fr[1:] and trailing(model, fr) < i.get("copies", 0) - lost_max) else None)
     if obs != model:
-        res.fail("corr", i, model, obs, "reader model and FrameReader.read() differ")
+        res.fail("corr", i, model[:40], obs[:40], "reader model and FrameReader.read() differ")
     return res
